@@ -73,6 +73,18 @@ class VDyn(VStr):
         self.isb = isb if not isinstance(isb, bool) else z3.BoolVal(isb)
 
 
+class ShapeUnknown(Exception):
+    """raised inside a contract clause when the value the (changed) code built has a shape the clause cannot read"""
+
+
+class Unk:
+    """A clause that cannot be stated because the pack does not recognise the shape of what the (changed) code built: neither
+    proved nor refuted -- the obligation is `unknown` (UNKNOWN-SHAPE) and the native replayer decides.  Assumed as True."""
+
+    def __init__(self, why):
+        self.why = str(why)[:200]
+
+
 class ConjA(Conj):
     """Labelled conjunction plus definitional instances that are only ever assumed (never proof goals)."""
 
@@ -81,7 +93,7 @@ class ConjA(Conj):
         self.defs = list(defs)
 
     def term(self):
-        return z3.And([t for _l, t in self] + self.defs + [z3.BoolVal(True)])
+        return z3.And([t for _l, t in self if not isinstance(t, Unk)] + self.defs + [z3.BoolVal(True)])
 
 
 def opt_parts(v):
@@ -431,7 +443,67 @@ class MailExecutor(UnitsExecutor):
     def add_vc(self, kind, label, pc, goal, note="", loc=""):
         if self._probing:
             return
+        if isinstance(goal, Conj):
+            for (sub, t) in goal:
+                self.add_vc(kind, f"{label}.{sub}" if label else sub, pc, t, note, loc)
+            return
+        if isinstance(goal, Unk):
+            note, goal = "UNKNOWN-SHAPE " + goal.why, z3.BoolVal(False)
         super().add_vc(kind, label, pc, goal, note, loc)
+
+    def _b(self, x):
+        if isinstance(x, Unk):
+            return z3.BoolVal(True)
+        return super()._b(x)
+
+    def apply_contract(self, st, c, args, kwargs, node):
+        # an Optional argument that the path condition shows to be present is handed over as the value itself
+        args = [self.unwrap(st, a) for a in args]
+        kwargs = {k: self.unwrap(st, v) for k, v in kwargs.items()}
+        try:
+            return super().apply_contract(st, c, args, kwargs, node)
+        except (AttributeError, TypeError, KeyError, IndexError, z3.Z3Exception) as e:
+            # a clause of the callee's contract is not applicable to the values the (changed) code passes: unrecognised shape
+            raise Unsupported(f"{self.loc(node)} contract of {c.target.split('::')[-1]} not applicable here: {type(e).__name__}: {e}"[:300])
+
+    def _listlike(self, st, v):
+        """(length, elem, kind) of a list value that takes part in a symbolic concatenation, or None"""
+        if isinstance(v, VRef) and st.obj(v.ref).kind == "alist":
+            d = st.obj(v.ref).data
+            return d.length, d.elem, d.ekind
+        if isinstance(v, VSeq):
+            return v.length, v.elem, v.ekind
+        items = self.concrete_items(st, v) if isinstance(v, (VRef, VTuple)) else None
+        if items is not None and (not isinstance(v, VRef) or st.obj(v.ref).kind == "list"):
+            kinds = {repr(X.ekind_of_value(x)) for x in items}
+            kind = X.ekind_of_value(items[0]) if len(kinds) == 1 else "unk"
+            return z3.IntVal(len(items)), (lambda k, items=items: X._sel(items, k)), kind
+        return None
+
+    def b_zip(self, st, args, kwargs, node):
+        args = [st.obj(a.ref).data if isinstance(a, VRef) and st.obj(a.ref).kind == "alist" else a for a in args]
+        return super().b_zip(st, args, kwargs, node)
+
+    def binop(self, st, op, a, b, node, inplace=False):
+        if op == "Add" and not inplace and (isinstance(a, VSeq) or isinstance(b, VSeq) or any(
+                isinstance(x, VRef) and st.obj(x.ref).kind == "alist" for x in (a, b))):
+            la, lb = self._listlike(st, a), self._listlike(st, b)
+            if la is not None and lb is not None:
+                (n1, e1, k1), (n2, e2, k2) = la, lb
+                kind = k1 if k1 == k2 or z3.is_int_value(z3.simplify(n2)) and z3.simplify(n2).as_long() == 0 else (k2 if z3.is_int_value(z3.simplify(n1)) and z3.simplify(n1).as_long() == 0 else None)
+                if kind is None or kind == "unk":
+                    raise Unsupported(f"{self.loc(node)} concatenation of lists of different element kinds")
+                sq = VSeq(z3.simplify(n1 + n2), lambda k: X._ite_val(k < n1, e1(k), e2(k - n1)), kind)
+                return [(st, self.new_alist(st, sq))]
+        if isinstance(a, VOpt) or isinstance(b, VOpt):
+            for x in (a, b):
+                if isinstance(x, VOpt):
+                    st = self.fork_raise(st, x.none, "TypeError")
+                    if st is None:
+                        return []
+            a = a.val if isinstance(a, VOpt) else a
+            b = b.val if isinstance(b, VOpt) else b
+        return super().binop(st, op, a, b, node, inplace)
 
     def sub_executor(self, module):
         sub = super().sub_executor(module)
@@ -486,34 +558,65 @@ class MailExecutor(UnitsExecutor):
         return super().contains(st, container, item, node)
 
     def e_BoolOp(self, n, st):
-        # `opt or <literal>`: If(truthy(opt), opt, literal) without forking
-        if isinstance(n.op, ast.Or) and len(n.values) == 2 and isinstance(n.values[1], ast.Constant) \
-                and isinstance(n.values[1].value, (str, bytes)):
-            out = []
-            for (s, v) in self.ev(n.values[0], st):
-                lit = n.values[1].value
-                if isinstance(v, VOpt):
+        """`opt or <text>`: If(truthy(opt), opt, text) without forking when <text> is an effect-free str/bytes expression (a literal,
+        a module constant, ...); otherwise the generic evaluation, with Optional results unwrapped where the path shows them present."""
+        if isinstance(n.op, ast.Or) and len(n.values) == 2:
+            firsts = self.ev(n.values[0], st.fork())
+            if len(firsts) == 1 and isinstance(firsts[0][1], (VOpt, VStr)) and not (isinstance(firsts[0][1], VOpt) and not isinstance(firsts[0][1].val, VStr)):
+                (s, v) = self.ev(n.values[0], st)[0]
+                mark = len(self.sinks[-1])
+                s_rest = s.fork()
+                rest = self.ev(n.values[1], s_rest)
+                if len(rest) == 1 and len(self.sinks[-1]) == mark and self._same_effects(rest[0][0], s_rest, s) and isinstance(rest[0][1], (VStr, VBytes)):
+                    o = rest[0][1]
                     t = self.truth(s, v).t
-                    lt = z3.StringVal(lit if isinstance(lit, str) else lit.decode("latin-1"))
-                    term = z3.If(t, v.val.t, lt)
-                    if isinstance(v.val, VDyn) or isinstance(lit, bytes):
-                        isb = v.val.isb if isinstance(v.val, VDyn) else z3.BoolVal(False)
-                        out.append((s, VDyn(term, z3.If(t, isb, z3.BoolVal(isinstance(lit, bytes))))))
-                    else:
-                        out.append((s, VStr(term)))
-                elif isinstance(v, VStr) and isinstance(lit, str) and not isinstance(v, VDyn):
-                    out.append((s, VStr(z3.If(z3.Length(v.t) > 0, v.t, z3.StringVal(lit)))))
-                else:
-                    return super().e_BoolOp(n, st)
-            return out
-        return super().e_BoolOp(n, st)
+                    vt = v.val.t if isinstance(v, VOpt) else v.t
+                    inner = v.val if isinstance(v, VOpt) else v
+                    term = z3.If(t, vt, bytes_term(o))
+                    if isinstance(inner, VDyn) or isinstance(o, (VBytes, VDyn)):
+                        isb_v = inner.isb if isinstance(inner, VDyn) else z3.BoolVal(False)
+                        isb_o = o.isb if isinstance(o, VDyn) else z3.BoolVal(isinstance(o, VBytes))
+                        return [(s, VDyn(term, z3.If(t, isb_v, isb_o)))]
+                    return [(s, VStr(term))]
+                del self.sinks[-1][mark:]
+                return [(s2, self.unwrap(s2, r)) for (s2, r) in self._boolop_from(n, s, v)]
+        return [(s2, self.unwrap(s2, r)) for (s2, r) in super().e_BoolOp(n, st)]
+
+    def _boolop_from(self, n, s, v):
+        """generic `v or <second>` once the first operand has been evaluated to v in state s"""
+        t = self.truth(s, v)
+        c = t.const()
+        if c is True:
+            return [(s, v)]
+        if c is False:
+            return self.ev(n.values[1], s)
+        out = []
+        s_rest = s.fork().assume(z3.Not(t.t))
+        if self.feasible(s_rest.pc):
+            out.extend(self.ev(n.values[1], s_rest))
+        stay = s.assume(t.t)
+        if self.feasible(stay.pc):
+            out.append((stay, v))
+        return out
 
     def to_str(self, st, v, formatted=False):
         if isinstance(v, VOpt):
             if not isinstance(v.val, VStr):
+                if not self.abstract:
+                    st.assume(z3.Bool(f"__havoc__@str() of an optional {type(v.val).__name__}"))
                 return VStr(z3.String(fresh_name("str")))
             return VStr(z3.If(v.none, z3.StringVal("None"), v.val.t))
         return super().to_str(st, v, formatted)
+
+    def format_template(self, st, template, args, kwargs):
+        """str.format / %-formatting with an Optional text argument: rendered like an f-string renders it ('None' or the text)"""
+        conv = lambda v: self.to_str(st, v) if isinstance(v, VOpt) and isinstance(v.val, VStr) else v
+        return super().format_template(st, template, [conv(a) for a in args], {k: conv(v) for k, v in (kwargs or {}).items()})
+
+    def percent_template(self, st, template, arg):
+        conv = lambda v: self.to_str(st, v) if isinstance(v, VOpt) and isinstance(v.val, VStr) else v
+        arg = VTuple([conv(x) for x in arg.items]) if isinstance(arg, VTuple) else conv(arg)
+        return super().percent_template(st, template, arg)
 
     def b_isinstance(self, st, args, kwargs, node):
         v, t = args
@@ -538,6 +641,14 @@ class MailExecutor(UnitsExecutor):
 
     # --------------------------------------------------------- str / bytes methods --
     def call_method(self, st, obj, name, args, kwargs, node):
+        if isinstance(obj, VExt) and self.schema(obj.sort) is not None:
+            mod = self.class_module(obj.sort)
+            fn = self.find_method(mod, obj.sort, name) if mod is not None else None
+            if fn is not None and any(ast.unparse(d) in ("staticmethod", "classmethod") for d in fn.decorator_list) \
+                    and self.reg.get(f"{mod.rel}::{obj.sort}.{name}") is None and (obj.sort, name) not in self.OPAQUE:
+                is_cls = any(ast.unparse(d) == "classmethod" for d in fn.decorator_list)
+                env = self.bind_params(fn, args, kwargs, node, self_val=VType(obj.sort) if is_cls else None)
+                return self.run_in(mod, st, fn, env)
         if isinstance(obj, VOpt):
             st2 = self.fork_raise(st, obj.none, "AttributeError")
             if st2 is None:
@@ -858,7 +969,69 @@ class MailExecutor(UnitsExecutor):
         return out
 
     # ------------------------------------------------------------ dispatch (router) --
+    def e_Call(self, n, st):
+        """f(..., **d) with d a dict of concrete string keys: the entries are passed as keyword arguments"""
+        if not any(k.arg is None for k in n.keywords) or self.is_logger_call(n):
+            return super().e_Call(n, st)
+        out = []
+        for (s, f) in self.ev(n.func, st):
+            for (s2, args) in self.ev_list(n.args, s):
+                for (s3, kwvals) in self.ev_list([k.value for k in n.keywords], s2):
+                    kwargs = {}
+                    for k, v in zip(n.keywords, kwvals):
+                        if k.arg is not None:
+                            kwargs[k.arg] = v
+                            continue
+                        d = s3.obj(v.ref).data if isinstance(v, VRef) and s3.obj(v.ref).kind == "dict" else (v.items if isinstance(v, VDictC) else None)
+                        if d is None or not all(isinstance(key, str) for key in d):
+                            raise Unsupported(f"{self.loc(n)} ** of something that is not a dict with constant str keys")
+                        kwargs.update(d)
+                    out.extend(self.call(s3, f, args, kwargs, n))
+        return out
+
+    # modules whose private helpers without a contract are SUMMARISED (not executed): a deterministic function of the arguments,
+    # result kind from the return annotation; which helper it is does not matter to the clauses that read the result (they look
+    # at the arguments and at "same helper for every field"), so renaming / re-implementing a helper re-verifies
+    SUMMARISE = (MSG,)
+
+    def summarise_call(self, st, f, args, kwargs, node):
+        from pyvc import loader as _l
+        if f.a not in self.SUMMARISE or self.reg.get(f"{f.a}::{f.b}") is not None or "." in f.b or not f.b.startswith("_") or kwargs:
+            return None
+        fnode = _l.module(f.a, self.module.repo).functions.get(f.b)
+        if fnode is None or fnode.returns is None:
+            return None
+        terms, sorts = [], []
+        for a in args:
+            if isinstance(a, VOpt) and isinstance(a.val, VStr):
+                terms += [a.none, a.val.t]
+                sorts += [B, S]
+            elif isinstance(a, (VStr, VExt)):
+                terms.append(a.t)
+                sorts.append(a.t.sort())
+            else:
+                return None
+        ann = ast.unparse(fnode.returns)
+        name = f"helper:{f.b}"
+        self.exc_any(st.fork(), f"{self.loc(node)} helper {f.b}")
+        if ann == "str":
+            return [(st, VStr(z3.Function(name, *sorts, S)(*terms)))]
+        if ann == "bool":
+            return [(st, VBool(z3.Function(name, *sorts, B)(*terms)))]
+        m = __import__("re").fullmatch(r"(?:list|List)\[(\w+)\]", ann)
+        if m and self.schema(m.group(1)) is not None:
+            cls = m.group(1)
+            n = z3.Function(name + ".len", *sorts, I)(*terms)
+            at = z3.Function(name + ".at", *sorts, I, ext_sort(cls))
+            st.assume(n >= 0)
+            return [(st, VSeq(n, lambda k: VExt(cls, at(*terms, k)), ("obj", cls), tag=("helper", f.b, tuple(terms), tuple(sorts))))]
+        return None
+
     def call(self, st, f, args, kwargs, node):
+        if isinstance(f, VFunc) and f.how == "repo":
+            r = self.summarise_call(st, f, args, kwargs, node)
+            if r is not None:
+                return r
         if isinstance(f, VUnk) and any(isinstance(a, VExt) and a.sort == "BytesIO" for a in args):
             # an unknown callable is handed an attachment stream: recorded as a dispatch to an unknown extractor
             f = VTuple([VStr(z3.String(fresh_name("unknown_module"))), VStr(z3.String(fresh_name("unknown_function")))])
@@ -891,19 +1064,31 @@ class MailExecutor(UnitsExecutor):
 
     # -------------------------------------------------------------- comprehensions --
     def _sym_comp(self, n, st, elt_nodes):
+        """Comprehension / generator expression over a symbolic sequence -> VSeq (None: not symbolic, generic code applies).
+        The target / filter / element are evaluated at a symbolic index J on a scratch copy of the state.  The element may fork
+        (conditional expressions, helpers with try/except): the outcomes are merged into one If-value.  Path conditions that a
+        single-outcome evaluation adds (facts assumed by library models / callee contracts about index J) are kept as facts
+        quantified over the index range."""
         view = self._probe_iter(n, st)
         if view is None:
             return None
+        if len(elt_nodes) != 1:
+            raise Unsupported(f"{self.loc(n)} multi-valued comprehension over a symbolic sequence")
         g = n.generators[0]
         (st, _it) = self.ev(g.iter, st)[0]
         length, elem = view
         snap = st.fork()
 
-        def at(k):
-            """-> (keep Bool term, element value, [assumption terms of that evaluation])  at index term k."""
+        def is_tag(t):
+            return z3.is_const(t) and t.decl().kind() == z3.Z3_OP_UNINTERPRETED and str(t).startswith("__havoc__@")
+
+        def outcomes(k, raising=False):
+            """-> (keep Bool term, [facts of the filter], [(conditions, value, state)])"""
             s = snap.fork()
-            npc = len(s.pc)
+            if raising:
+                s.assume(z3.And(k >= 0, k < length))
             s.frames.append(Frame({}, len(s.frames) - 1, s.frame.fnode))
+            npc = len(s.pc)
             self.sinks.append([])
             try:
                 cur = self.assign(g.target, elem(k), s)
@@ -917,57 +1102,159 @@ class MailExecutor(UnitsExecutor):
                         raise Unsupported(f"{self.loc(n)} forking comprehension condition")
                     s1, cv = r[0]
                     keep.append(self.truth(s1, cv).t)
-                if len(elt_nodes) != 1:
-                    raise Unsupported(f"{self.loc(n)} multi-valued comprehension")
-                r = self.ev(elt_nodes[0], s1)
-                if len(r) != 1:
-                    raise Unsupported(f"{self.loc(n)} forking comprehension element")
-                s1, v = r[0]
+                pre = list(s1.pc[npc:])
+                keep_t = z3.And(keep + [z3.BoolVal(True)])
+                if keep:
+                    s1.assume(keep_t)          # the element is evaluated only for kept items
+                npc2 = len(s1.pc)
+                res = [(list(s3.pc[npc2:]), v, s3) for (s3, v) in self.ev(elt_nodes[0], s1)]
             finally:
                 sink = self.sinks.pop()
-            if sink:
-                raise Unsupported(f"{self.loc(n)} comprehension element may raise")
-            return z3.And(keep + [z3.BoolVal(True)]), v, s1, list(s1.pc[npc:])
+            if raising:
+                for (es, exc) in sink:       # an element that raises for some index in range is an exceptional path of the comprehension
+                    es.frames.pop()
+                    self.raise_in(es, exc)
+            if not res:
+                raise Unsupported(f"{self.loc(n)} comprehension element has no normal outcome")
+            return keep_t, pre, res
+
+        def scalar(v, s3):
+            return isinstance(v, (VStr, VInt, VBool, VExt)) and not isinstance(v, VDyn) or isinstance(v, VDyn)
+
+        def merge(res, pick):
+            """If-chain over the outcomes' conditions of pick(value, state) (a V of mergeable kind)"""
+            acc = pick(res[-1][1], res[-1][2])
+            for conds, v, s3 in reversed(res[:-1]):
+                c = z3.And([c_ for c_ in conds if not is_tag(c_)] + [z3.BoolVal(True)])
+                m = ops.same_shape_ite(c, pick(v, s3), acc)
+                if m is None:
+                    raise Unsupported(f"{self.loc(n)} comprehension element outcomes of different kinds")
+                acc = m
+            return acc
 
         J = z3.Int(fresh_name("j!comp"))
-        keepJ, vJ, sJ, extraJ = at(J)
-        if extraJ:
-            raise Unsupported(f"{self.loc(n)} comprehension element adds path conditions")
-        # element as a function of the index
-        if isinstance(vJ, VRef):
-            o = sJ.obj(vJ.ref)
+        in_range = z3.And(J >= 0, J < length)
+        from pyvc import values as _values
+        first_fresh = next(_values._fresh)
+        keepJ, preJ, resJ = outcomes(J, raising=True)
+        sk_cache = {}
+
+        def skolem(t):
+            """constants created while evaluating at index J (fresh strings, library objects) become functions of the index, so
+            that what is learnt about them can be stated for every index"""
+            if isinstance(t, bool):
+                return t
+            subs = []
+            seen, stack = set(), [t]
+            while stack:
+                x = stack.pop()
+                if x.get_id() in seen:
+                    continue
+                seen.add(x.get_id())
+                if z3.is_quantifier(x):
+                    stack.append(x.body())
+                    continue
+                if z3.is_app(x):
+                    if x.num_args() == 0 and x.decl().kind() == z3.Z3_OP_UNINTERPRETED and not x.eq(J):
+                        nm = x.decl().name()
+                        tail = nm.rsplit("!", 1)[-1]
+                        if "!" in nm and tail.isdigit() and int(tail) > first_fresh and x.sort() != z3.BoolSort():
+                            if nm not in sk_cache:
+                                sk_cache[nm] = z3.Function(nm + "@j", I, x.sort())
+                            subs.append((x, sk_cache[nm](J)))
+                    stack.extend(x.children())
+            return z3.substitute(t, *subs) if subs else t
+        rng = z3.And(J >= 0, J < length)
+        preJ = [c for c in preJ if not c.eq(rng)]
+        # tags of over-approximated (unmodelled) steps taken while evaluating the element mark the whole path
+        tags = [c for (conds, _v, _s) in resJ for c in conds if is_tag(c)] + [c for c in preJ if is_tag(c)]
+        for t in dict((str(t), t) for t in tags).values():
+            st.assume(t)
+        pre_facts = [skolem(c) for c in preJ if not is_tag(c)]
+        if pre_facts:
+            st.assume(z3.ForAll([J], z3.Implies(in_range, z3.And(pre_facts))))
+        # The element at index J is given by Skolem function(s) of J; what is known: for every index in range that is kept,
+        # ONE of the evaluation's outcomes was taken -- its path conditions / assumed facts hold and the element is its value.
+        sample, s_sample = resJ[0][1], resJ[0][2]
+
+        def scalar_eq(fn_term, v):
+            if isinstance(v, VOpt):
+                raise Unsupported(f"{self.loc(n)} optional comprehension element")
+            return ops.eq_term(X._val(X.ekind_of_value(v), fn_term), v) if not isinstance(v, VExt) else fn_term == v.t
+
+        if isinstance(sample, VRef):
+            o = s_sample.obj(sample.ref)
             sch = self.schema(o.cls) if o.kind == "obj" and o.cls else None
-            if sch is None:
+            if sch is None or any(not (isinstance(v, VRef) and s3.obj(v.ref).kind == "obj" and s3.obj(v.ref).cls == o.cls) for (_c, v, s3) in resJ):
                 raise Unsupported(f"{self.loc(n)} comprehension element is a heap object without schema")
-            ef = z3.Function(fresh_name(f"comp_{o.cls}"), I, ext_sort(o.cls))
-            facts = []
-            for f, kind in sch.items():
-                cur = o.data.get(f)
-                if kind in ("str", "int", "bool") and isinstance(cur, (VStr, VInt, VBool)):
-                    facts.append(ops.eq_term(X._val(kind, fld(o.cls, f, X._sort_of_kind(kind))(ef(J))), cur))
-            if facts:
-                st.assume(z3.ForAll([J], z3.And(facts), patterns=[ef(J)]))
-            ekind = ("obj", o.cls)
             cls = o.cls
+            ef = z3.Function(fresh_name(f"comp_{cls}"), I, ext_sort(cls))
+            pat = ef(J)
+            disj = []
+            for (conds, v, s3) in resJ:
+                eqs = []
+                for f, kind in sch.items():
+                    cur = self.unwrap(s3, s3.obj(v.ref).data.get(f))
+                    if kind in ("str", "int", "bool") and isinstance(cur, (VStr, VInt, VBool)):
+                        eqs.append(ops.eq_term(X._val(kind, fld(cls, f, X._sort_of_kind(kind))(ef(J))), cur))
+                    elif isinstance(kind, tuple) and kind[0] == "obj" and isinstance(cur, VExt) and cur.sort == kind[1]:
+                        eqs.append(fld(cls, f, ext_sort(kind[1]))(ef(J)) == cur.t)
+                disj.append(skolem(z3.And([c for c in conds if not is_tag(c)] + eqs + [z3.BoolVal(True)])))
+            ekind = ("obj", cls)
 
             def el(k, ef=ef, cls=cls):
                 return VExt(cls, ef(k))
-        elif isinstance(vJ, (VStr, VInt, VBool, VExt)):
-            ekind = X.ekind_of_value(vJ)
+        elif isinstance(sample, (VStr, VInt, VBool, VExt)) and all(type(v) is type(sample) or (isinstance(v, VStr) and isinstance(sample, VStr)) for (_c, v, _s) in resJ):
+            ekind = X.ekind_of_value(sample)
+            es_ = X._sort_of_kind(ekind)
+            if es_ is None:
+                raise Unsupported(f"{self.loc(n)} comprehension element of unsupported kind")
+            ef = z3.Function(fresh_name("comp_elem"), I, es_)
+            pat = ef(J)
+            disj = [skolem(z3.And([c for c in conds if not is_tag(c)] + [scalar_eq(ef(J), v)])) for (conds, v, _s3) in resJ]
 
-            def el(k):
-                return at(k)[1]
+            def el(k, ef=ef, ekind=ekind):
+                return X._val(ekind, ef(k))
+        elif isinstance(sample, VTuple) and all(isinstance(v, VTuple) and len(v.items) == len(sample.items) for (_c, v, _s) in resJ) \
+                and all(isinstance(x, (VStr, VInt, VBool, VExt)) for x in sample.items):
+            kinds = [X.ekind_of_value(x) for x in sample.items]
+            efs = [z3.Function(fresh_name(f"comp_elem{i}"), I, X._sort_of_kind(kd)) for i, kd in enumerate(kinds)]
+            pat = efs[0](J)
+            disj = [skolem(z3.And([c for c in conds if not is_tag(c)] + [scalar_eq(e_(J), x) for e_, x in zip(efs, v.items)])) for (conds, v, _s3) in resJ]
+            ekind = "tuple"
+
+            def el(k, efs=efs, kinds=kinds):
+                return VTuple([X._val(kd, e_(k)) for e_, kd in zip(efs, kinds)])
         else:
-            raise Unsupported(f"{self.loc(n)} comprehension element {vJ!r}")
+            raise Unsupported(f"{self.loc(n)} comprehension element {sample!r}")
+        st.assume(z3.ForAll([J], z3.Implies(z3.And(in_range, skolem(keepJ)), z3.Or(disj)), patterns=[pat]))
         if not g.ifs:
             return st, VSeq(length, el, ekind, tag=("map", length, el))
-        # filtered: an order-preserving sub-sequence, described by (source length, keep, element)
+        # filtered: an order-preserving sub-sequence, described by (source length, keep, element); its own length / elements are
+        # fresh (only bounded): clauses must read it through the tag (seq_of refuses)
         ln = z3.Int(fresh_name("filter.len"))
         st.assume(z3.And(ln >= 0, ln <= length))
         es = X._sort_of_kind(ekind)
+        keep_fn = lambda k: outcomes(k)[0]
+        if es is None:
+            return st, VSeq(ln, lambda k: VUnk("filtered-elem"), ekind, tag=("filtermap", length, keep_fn, el))
         arr = z3.Const(fresh_name("filter.at"), z3.ArraySort(I, es))
-        keep_fn = lambda k: at(k)[0]
         return st, VSeq(ln, lambda k: X._val(ekind, z3.Select(arr, k)), ekind, tag=("filtermap", length, keep_fn, el))
+
+
+def separator_pattern_name(repo=None):
+    """Name of the module-level compiled pattern the mailbox splitter runs `finditer` on -- read from the real source (whatever
+    the constant is called); 'MBOX_FROM_PATTERN' when the shape is not recognised (the obligations then end `unknown`)."""
+    try:
+        m = loader.module(MBOX, repo)
+        fn = m.functions.get("_split_mbox_messages")
+        names = [n.func.value.id for n in ast.walk(fn) if isinstance(n, ast.Call) and isinstance(n.func, ast.Attribute)
+                 and n.func.attr == "finditer" and isinstance(n.func.value, ast.Name) and n.func.value.id in m.assigns]
+        if len(set(names)) == 1:
+            return names[0]
+    except Exception:  # noqa
+        pass
+    return "MBOX_FROM_PATTERN"
 
 
 def _empty_seq(kind):
@@ -1009,9 +1296,25 @@ def _dummy(kind):
     return lambda k: X._val(kind, z3.Select(arr, k))
 
 
+def comp_tag(st, v):
+    """("map"|"filtermap", source length, keep(k), element(k)) when the list was built by a comprehension over a symbolic
+    sequence (possibly wrapped by list()), else None"""
+    tag = seq_tag(st, v)
+    if isinstance(tag, tuple) and tag and tag[0] == "map":
+        return ("map", tag[1], (lambda k: z3.BoolVal(True)), tag[2])
+    if isinstance(tag, tuple) and tag and tag[0] == "filtermap":
+        return tag
+    return None
+
+
 def seq_of(st, v, kind="str"):
     """(length term, elem fn) of a list value: concrete list, abstract list or symbolic sequence (`kind`: element kind
-    used for the elements of an empty concrete list)."""
+    used for the elements of an empty concrete list).  The result of a FILTERED comprehension has no usable length / element
+    terms of its own (they are fresh): it must be read through comp_tag -- refusing here keeps a clause from "refuting" on an
+    over-approximation."""
+    tag = seq_tag(st, v)
+    if isinstance(tag, tuple) and tag and tag[0] == "filtermap":
+        raise ShapeUnknown("result of a filtered comprehension read positionally")
     if isinstance(v, VRef):
         o = st.obj(v.ref)
         if o.kind == "alist":
@@ -1073,7 +1376,7 @@ def install(reg):
 
     # ---- re ----------------------------------------------------------------
     pat = VExt("RePattern", z3.Const("re:MBOX_FROM_PATTERN", PatS))
-    reg.module_consts[(MBOX, "MBOX_FROM_PATTERN")] = pat
+    reg.module_consts[(MBOX, separator_pattern_name())] = pat
 
     def m_finditer(ex, st, obj, args, kwargs, node):
         """pattern.finditer(data): ASSUMED -- total; the matches are ordered, non-overlapping, non-empty, inside data."""
